@@ -4,6 +4,8 @@
 //   VH_PROP=C01: spans inside the buffer, input never modified (ASan/UBSan watch the rest)
 //   VH_PROP=C09: once an error code is set everything is neutral until reset/init/verify
 //   VH_PROP=C16: token callbacks per call <= bytes advanced + small constant; cursor never moves back
+#include <signal.h>
+
 #include "apiops.hpp"
 
 static DocOpts opts(bool big) {
@@ -54,7 +56,15 @@ static void execute(Run &r, Decoded &d, Src &s) {
     if (!r.pb.input_intact()) r.fail("any", "input-modified", "the input buffer was modified");
 }
 
+static void c16_sweep_case(size_t L, unsigned variant);
+
 static void run_case(Src &s) {
+    if (s.left() >= 6 && s.p[s.i] == 0xA9 && is16()) {  // literal sweep case written by the enumerator
+        uint32_t l32;
+        memcpy(&l32, s.p + s.i + 2, 4);
+        c16_sweep_case(l32 % 70000, s.p[s.i + 1]);
+        return;
+    }
     Decoded d = decode(s);
     size_t at = s.i;
     Run r;
@@ -95,6 +105,12 @@ static void run_case(Src &s) {
 }
 
 static void describe_case(Src &s, FILE *out) {
+    if (s.left() >= 6 && s.p[s.i] == 0xA9 && is16()) {
+        uint32_t l32;
+        memcpy(&l32, s.p + s.i + 2, 4);
+        fprintf(out, "  C16 name-sweep case: name length %u, variant %u\n", l32, s.p[s.i + 1]);
+        return;
+    }
     Decoded d = decode(s);
     fprintf(out, "%s\n  struct prefill: %s  state fill: %02x\n", describe_doc(d.c).c_str(), d.prefill.empty() ? "zero" : ref::hex(d.prefill).c_str(), d.state_fill);
     Run r;
@@ -116,6 +132,108 @@ static size_t wrap_raw(const uint8_t *doc, size_t n, unsigned variant, uint8_t *
     out[0] = 0;  // header: zero prefill, small docs
     size_t k = wrap_raw_doc(doc, n, variant, out + 1, cap - 1);
     return k ? k + 1 : 0;
+}
+
+
+// ---------------------------------------------------------------------------
+// C16 deterministic sweep: for every swept field-name length L the document {"a":[true x 60], K(L): 1, K(L)+"x": 2};
+// the cursor stops on the un-entered array, then lookups that overshoot onto K, hit K, and miss after it are each
+// measured (token callbacks vs. bytes advanced); a per-document alarm turns a hang into exit code 77.
+static void c16_sweep_case(size_t L, unsigned variant) {
+    Value root;
+    root.k = ref::K_OBJ;
+    Value arr; arr.k = ref::K_ARR;
+    for (int i = 0; i < 60; i++) { Value t; t.k = ref::K_BOOL; t.b = true; arr.c.push_back(t); }
+    Value one; one.k = ref::K_INT; one.i = 1;
+    Bytes K(L, (uint8_t)'k'), Kx = K;
+    Kx.push_back('x');
+    auto field = [&](Bytes nm, Value v) { v.has_name = true; v.name = nm; root.c.push_back(v); };
+    field(Bytes{'a'}, arr);
+    if (L) field(K, variant & 1 ? arr : one);
+    field(Kx, one);
+    std::sort(root.c.begin(), root.c.end(), [](const Value &a, const Value &b) { return ref::cmp_bytes(a.name, b.name) < 0; });
+    for (size_t i = 0; i + 1 < root.c.size(); i++) if (root.c[i].name == root.c[i + 1].name) return;
+    Bytes doc = ref::encode(root);
+    PBox pb;
+    pb.make(2, nullptr, 0, 0);
+    pb.set_input(doc);
+    binson_parser *p = pb.p;
+    auto fail = [&](const char *what, uint64_t tokens, uint64_t adv) {
+        throw Failure{std::string("C16/name-sweep/") + what, fmt("name length %zu variant %u: %s (%" PRIu64 " token callbacks, %" PRIu64 " bytes advanced)", L, variant, what, tokens, adv)};
+    };
+    if (!pb.init(false)) fail("init", 0, 0);
+    Count cnt{0};
+    auto measured = [&](const char *what, uint64_t slack, std::function<bool()> call) {
+        cnt.tokens = 0;
+        p->cb = count_cb;
+        p->cb_context = &cnt;
+        size_t before = p->buffer_used;
+        bool r = call();
+        p->cb = NULL;
+        p->cb_context = NULL;
+        size_t after = p->buffer_used;
+        if (after < before) fail("cursor-moved-back", cnt.tokens, 0);
+        if (cnt.tokens > (after - before) + slack) fail(what, cnt.tokens, after - before);
+        if (p->error_flags != BINSON_ERROR_NONE) fail("error", cnt.tokens, after - before);
+        return r;
+    };
+    Bytes b{'b'};
+    measured("go_into_object/tokens>bytes", 1, [&] { return binson_parser_go_into_object(p); });
+    measured("next/tokens>bytes", 1, [&] { return binson_parser_next(p); });   // stops on the un-entered array "a"
+    for (int i = 0; i < 4; i++)  // "b" sorts between "a" and K: the first lookup skips the array and overshoots onto K, the others re-read only K
+        if (measured("field(miss)/tokens>bytes", 2, [&] { return binson_parser_field_with_length(p, (const char *)b.data(), b.size()); })) fail("absent-name-found", 0, 0);
+    if (L) {
+        if (!measured("field(hit)/tokens>bytes", 2, [&] { return binson_parser_field_with_length(p, (const char *)K.data(), K.size()); })) fail("present-name-not-found", 0, 0);
+        Bytes after = K;
+        after.push_back(0);
+        for (int i = 0; i < 3; i++)
+            if (measured("field(miss-after)/tokens>bytes", 2, [&] { return binson_parser_field_with_length(p, (const char *)after.data(), after.size()); })) fail("absent-name-found", 0, 0);
+    }
+    if (!measured("field(hit)/tokens>bytes", 2, [&] { return binson_parser_field_with_length(p, (const char *)Kx.data(), Kx.size()); })) fail("present-name-not-found", 0, 0);
+    measured("leave_object/tokens>bytes", 1, [&] { return binson_parser_leave_object(p); });
+    cnt.tokens = 0;
+    p->cb = count_cb;
+    p->cb_context = &cnt;
+    bool v = binson_parser_verify(p);
+    p->cb = NULL;
+    if (!v) fail("verify-rejects", 0, 0);
+    if (cnt.tokens > doc.size() + 1) fail("verify/tokens>len", cnt.tokens, doc.size());
+}
+
+static void on_sweep_alarm(int) { _exit(77); }
+
+#define VH_HAS_ENUM
+static int enumerate(int shard, int nshards, const char *tier) {
+    if (!is16()) return 0;
+    bool thorough = tier && !strcmp(tier, "thorough");
+    std::vector<size_t> Ls;
+    auto range = [&](size_t a, size_t b) { for (size_t l = a; l <= b; l++) Ls.push_back(l); };
+    if (thorough) { range(0, 2000); range(32000, 33600); range(65000, 66200); range(69990, 69999); }
+    else { range(0, 300); range(32700, 32800); range(65500, 65600); Ls.push_back(69999); }
+    signal(SIGALRM, on_sweep_alarm);
+    Stats &st = stats();
+    for (size_t i = 0; i < Ls.size(); i++) {
+        if ((int)(i % (size_t)nshards) != shard) continue;
+        for (unsigned v = 0; v < 2; v++) {
+            uint8_t cs[6] = {0xA9, (uint8_t)v};
+            uint32_t l32 = (uint32_t)Ls[i];
+            memcpy(cs + 2, &l32, 4);
+            vh_save_fail_case(cs, 6);  // written before the case runs: a hang (alarm -> exit 77) still leaves the case behind
+            alarm(10);
+            try {
+                c16_sweep_case(Ls[i], v);
+            } catch (const Failure &) {
+                alarm(0);
+                throw;
+            }
+            alarm(0);
+            st.evaluations++;
+            st.count("enum_name_sweep_cases");
+            st.nontrivial(mix(0xA9A9, Ls[i] * 2 + v));
+        }
+    }
+    if (const char *path = getenv("VH_FAIL")) remove(path);
+    return 0;
 }
 
 #include "glue.hpp"
